@@ -36,7 +36,10 @@ fn support(ctx: usize) -> Vec<ProjFile> {
     if ctx == 0 {
         v.push(mk("used", "d", ItemKind::Parcelable, "Used"));
     }
-    v.push(mk("deep", "d", ItemKind::Parcelable, "Deep"));
+    // this file has a recovered syntax error (tree + diagnostics): it still registers d.Deep
+    let mut deep = mk("deep", "d", ItemKind::Parcelable, "Deep");
+    deep.text = "package d; parcelable Deep { int ; int x; }".to_string();
+    v.push(deep);
     v.push(mk("unused", "d", ItemKind::Enum, "Unused"));
     v.push(mk("xq", "d", ItemKind::Enum, "XQ"));
     v.push(mk("part", "d.e", ItemKind::Interface, "Part"));
